@@ -161,9 +161,83 @@ func (c *Ctx) ruleC19() {
 					okLocal = true
 				}
 			}
+			// the kind comes from a helper that only hands out, together with a nil error, a kind it has looked up in the
+			// ban set; the caller reaches the construction only over the nil edge of that error
+			okHelper := false
+			if kindArg != nil && !okLocal {
+				kp := accessPath(pk, kindArg)
+				ast.Inspect(f.Decl.Body, func(m ast.Node) bool {
+					as, isAs := m.(*ast.AssignStmt)
+					if !isAs || len(as.Rhs) != 1 || len(as.Lhs) != 2 || accessPath(pk, as.Lhs[0]) != kp {
+						return true
+					}
+					call, isCall := ast.Unparen(as.Rhs[0]).(*ast.CallExpr)
+					if !isCall {
+						return true
+					}
+					h := c.fnOf(callee(pk, call))
+					eid, isId := as.Lhs[1].(*ast.Ident)
+					if h == nil || h.Pkg != corePk || !isId {
+						return true
+					}
+					errObj := pk.TypesInfo.Defs[eid]
+					if errObj == nil {
+						errObj = pk.TypesInfo.Uses[eid]
+					}
+					// (i) in the helper: every return with a nil error returns a kind that came from NewDirectiveType and
+					// passed a ban lookup with an error on a hit
+					hcf := buildCFG(h.Decl.Body)
+					hKind := map[string]bool{}
+					ast.Inspect(h.Decl.Body, func(k ast.Node) bool {
+						if has, ok := k.(*ast.AssignStmt); ok && len(has.Rhs) == 1 {
+							if hc, ok := ast.Unparen(has.Rhs[0]).(*ast.CallExpr); ok && callee(h.Pkg, hc) == newType && newType != nil {
+								hKind[accessPath(h.Pkg, has.Lhs[0])] = true
+							}
+						}
+						return true
+					})
+					good, nRet := true, 0
+					ast.Inspect(h.Decl.Body, func(k ast.Node) bool {
+						ret, ok := k.(*ast.ReturnStmt)
+						if !ok || len(ret.Results) != 2 || !isNil(h.Pkg, ret.Results[1]) {
+							return true
+						}
+						nRet++
+						rp := accessPath(h.Pkg, ret.Results[0])
+						guarded := false
+						for _, bl := range c.banLookups(h, ban) {
+							if accessPath(h.Pkg, bl.key) == rp && hKind[rp] && hcf.dominatedBy(ret, bl.ifs.Init) && !(bl.ifs.Body.Pos() <= ret.Pos() && ret.End() <= bl.ifs.Body.End()) {
+								guarded = true
+							}
+						}
+						if !guarded {
+							good = false
+						}
+						return true
+					})
+					// (ii) in the caller: the construction is reached only when the helper's error was nil
+					errNil := func(cond ast.Expr, trueEdge bool) bool {
+						be, ok := ast.Unparen(cond).(*ast.BinaryExpr)
+						if !ok || !isNil(pk, be.Y) {
+							return false
+						}
+						id, ok := ast.Unparen(be.X).(*ast.Ident)
+						if !ok || pk.TypesInfo.Uses[id] != errObj {
+							return false
+						}
+						return (be.Op == token.EQL && trueEdge) || (be.Op == token.NEQ && !trueEdge)
+					}
+					if good && nRet > 0 && cf.dominatedBy(site, as) && cf.establishedAt(site, errNil, nil) {
+						okHelper = true
+					}
+					return true
+				})
+			}
 			switch {
 			case okLocal:
 				r.Ok("C19-BAN-AT-CREATION", key, "dominated by the ban lookup keyed by the kind from NewDirectiveType; hit branch returns an error", c.pos(site.Pos()))
+			case okHelper:
+				r.Ok("C19-BAN-AT-CREATION", key, "the kind comes, with a nil error that the caller tests, from a helper that looked it up in the ban set (hit returns an error)", c.pos(site.Pos()))
 			case guardedUp(f, site, 3):
 				r.Ok("C19-BAN-AT-CREATION", key, "every call path into this function passes a by-kind ban lookup", c.pos(site.Pos()))
 			default:
